@@ -58,6 +58,71 @@ macro_rules! misc_types_digest {
         let o3: $rc<Odd> = $rc::new(Odd);
         let r = (o1 == o2, o1 != o2, o1 == o3, o1 != o3, o1 == o1);
         let _ = write!(s, "{:?}{}{};", r, EQC.load(std::sync::atomic::Ordering::Relaxed), NEC.load(std::sync::atomic::Ordering::Relaxed));
+        // every trait is forwarded to the payload whatever its size: a zero-sized payload with
+        // hand-written Hash / PartialOrd / Ord / Display / Debug impls that are observable
+        // (hash writes data, ordering is not total and not consistent with Ord), and the hash
+        // of every payload shape equals the payload's own hash
+        struct Tag;
+        impl Hash for Tag {
+            fn hash<H: Hasher>(&self, h: &mut H) {
+                h.write_u32(0xC0FFEE);
+                h.write_u8(3);
+            }
+        }
+        impl PartialEq for Tag {
+            fn eq(&self, _: &Tag) -> bool {
+                true
+            }
+        }
+        impl Eq for Tag {}
+        impl PartialOrd for Tag {
+            fn partial_cmp(&self, _: &Tag) -> Option<std::cmp::Ordering> {
+                None
+            }
+            fn lt(&self, _: &Tag) -> bool {
+                true
+            }
+            fn le(&self, _: &Tag) -> bool {
+                false
+            }
+            fn gt(&self, _: &Tag) -> bool {
+                true
+            }
+            fn ge(&self, _: &Tag) -> bool {
+                false
+            }
+        }
+        impl Ord for Tag {
+            fn cmp(&self, _: &Tag) -> std::cmp::Ordering {
+                std::cmp::Ordering::Greater
+            }
+        }
+        impl std::fmt::Display for Tag {
+            fn fmt(&self, f: &mut std::fmt::Formatter<'_>) -> std::fmt::Result {
+                write!(f, "T{:?}{:?}{}", f.width(), f.precision(), f.alternate())
+            }
+        }
+        impl std::fmt::Debug for Tag {
+            fn fmt(&self, f: &mut std::fmt::Formatter<'_>) -> std::fmt::Result {
+                write!(f, "D{:?}{}{}", f.width(), f.sign_plus(), f.alternate())
+            }
+        }
+        macro_rules! hs {
+            ($v:expr) => {{
+                let mut h = std::collections::hash_map::DefaultHasher::new();
+                $v.hash(&mut h);
+                h.finish()
+            }};
+        }
+        let t1: $rc<Tag> = $rc::new(Tag);
+        let t2: $rc<Tag> = $rc::from(Box::new(Tag));
+        let t3 = t1.clone();
+        let _ = write!(s, "{}{}{}{}{};", hs!(t1) == hs!(Tag), hs!(t2) == hs!(*t2), hs!(z) == hs!(()), hs!(big) == hs!(*big), hs!(arr) == hs!(*arr));
+        let _ = write!(s, "{}{}{}{}{:?}{:?}{}{};", t1 < t2, t1 <= t2, t1 > t2, t1 >= t2, t1.partial_cmp(&t2), t1.cmp(&t2), t1 == t2, t1 != t2);
+        let _ = write!(s, "{}{}{}{}{:?}{:?}{};", t1 < t3, t1 <= t3, t1 > t3, t1 >= t3, t1.partial_cmp(&t3), t1.cmp(&t3), t1 == t3);
+        let _ = write!(s, "{}|{:7.2}|{:#}|{:?}|{:+4?}|{:#?}|{};", t1, t1, t1, t1, t1, t2, hs!(one) == hs!(200u8));
+        let nn: $rc<f64> = $rc::new(1.0);
+        let _ = write!(s, "{}{}{}{}{}{}{}{};", nan < nn, nan <= nn, nan > nn, nan >= nn, nn < nan, nn <= nan, nn > nan, nn >= nan);
         // the caller's format options reach the payload
         let fl: $rc<f64> = $rc::new(3.14159);
         let neg: $rc<i32> = $rc::new(-42);
